@@ -305,6 +305,25 @@ def check_sparse(ctx):
     ctx.check(ok, R3, fi.key + ":shape", "assembled with shape (2**n, 2**n)", "the assembled matrix does not get the register's dimension", fi)
 
 
+def check_terms_not_merged_by_key(ctx):
+    """A sum may list the same Pauli string several times (it need not be simplified); the matrix is the sum over *all* terms.
+    Collecting the terms in a dict keyed by their operator part keeps one coefficient per string (the last), i.e. drops the
+    others instead of adding them."""
+    fi = ctx.repo.func(f"{SP}:get_sparse_operator")
+    bad = []
+    for n in body_walk(fi.node):
+        if isinstance(n, ast.DictComp) and "terms" in norm(n.generators[0].iter):
+            t = norm(n.generators[0].target)
+            if any(norm(n.key) == f"{t}.{a}" for a in ("operations", "_ops")) or f"{t}.operations" in norm(n.key) or f"{t}._ops" in norm(n.key):
+                bad.append(n)
+        if isinstance(n, ast.For) and "terms" in norm(n.iter):
+            t = norm(n.target)
+            for st in ast.walk(n):
+                if isinstance(st, ast.Assign) and isinstance(st.targets[0], ast.Subscript) and (f"{t}.operations" in norm(st.targets[0].slice) or f"{t}._ops" in norm(st.targets[0].slice)) and f"{t}.coefficient" in norm(st.value) and norm(st.targets[0]) not in norm(st.value):
+                    bad.append(st)
+    ctx.check(not bad, R3, fi.key + ":every-term", "every listed term contributes (no collection keyed by the Pauli string that overwrites)", f"`{short(bad[0], 90) if bad else ''}` keeps one coefficient per Pauli string: for an unsimplified sum such as X0 + 2*X0 the earlier coefficient is overwritten, so the matrix is 2*X0 instead of 3*X0", f"{fi.module.relpath}:{bad[0].lineno}" if bad else fi)
+
+
 def check_expectation(ctx):
     repo = ctx.repo
     ge = repo.func(f"{OU}:get_expectation_value")
@@ -491,6 +510,7 @@ def run(ctx):
     check_hermitian(ctx)
     check_sparse(ctx)
     check_expectation(ctx)
+    check_terms_not_merged_by_key(ctx)
     check_pauli_expansion(ctx)
     # the conversions are functions of their operands' current value: no memo on the operand, no module-level cache
     from ..state import check_hidden_state
